@@ -96,7 +96,7 @@ def InclNs (asg : List String) (args : List CExpr) : Prop :=
 
 theorem carveNSem_of_carveN (asg : List String) (e : CExpr) : InclN asg e := by
   refine CExpr.rec (motive_1 := InclN asg) (motive_2 := InclNs asg)
-    ?reg ?imm ?lit ?var ?cast ?un ?not ?bin ?shift ?cmp ?log ?tern ?macroc ?load ?post ?call ?stmtexpr ?nil ?cons e
+    ?reg ?imm ?lit ?var ?cast ?un ?not ?bin ?shift ?cmp ?log ?tern ?macroc ?load ?post ?call ?stmtexpr ?seqexpr ?nil ?cons e
   case reg => intro n k t h; rw [CarveN] at h; rw [CarveNSem]; exact h
   case imm => intro l s _; rw [CarveNSem]
   case lit => intro v hx s h; rw [CarveN] at h; rw [CarveNSem]; exact h
@@ -155,6 +155,7 @@ theorem carveNSem_of_carveN (asg : List String) (e : CExpr) : InclN asg e := by
   case post => intro v t op h; rw [CarveN] at h; cases h
   case call => intro n a r p _ h; rw [CarveN] at h; cases h
   case stmtexpr => intro t v e _ h; rw [CarveN] at h; cases h
+  case seqexpr => intro n x a p v _ _ h; rw [CarveN] at h; cases h
   case nil => intro params _; rw [CarveNsSem]
   case cons =>
     intro a as iha ihas params h
@@ -257,6 +258,7 @@ theorem carveSSem_of_carveS (env : CEnv) :
   | .skip _, _ => by rw [CarveSSem]
   | .exprstmt _, _ => by rw [CarveSSem]
   | .ret _, _ => by rw [CarveSSem]
+  | .vcall _ _ _ _, _ => by rw [CarveSSem]
 theorem carveSsSem_of_carveSs (env : CEnv) :
     (ss : List CStmt) → CarveSs (CarveE env.assigned) env ss = true → CarveSsSem env ss = true
   | [], _ => by rw [CarveSsSem]
